@@ -727,9 +727,14 @@ def gen_toy_two_structures(rng, k):
     threshold 0.5 / (copies + 0.5) of one structure but not of the other (e.g. 7 of 40 reads: 0.175 is above 0.143 and below 0.2)"""
     g = gene("toy")
     sites = toy_sites()
-    a2 = rng.choice(TOY_ALT[("1", "1")])
-    a3 = rng.choice(TOY_ALT[("1", "1", "1")])
-    majors = [{"alleles": a2, "added": [], "score": 0.0, "cn": ["1", "1"]}, {"alleles": a3, "added": [], "score": rng.choice([0.0, 0.5]), "cn": ["1", "1", "1"]}]
+    if rng.random() < 0.6:
+        a2 = rng.choice(TOY_ALT[("1", "1")])
+        a3 = rng.choice(TOY_ALT[("1", "1", "1")])
+        majors = [{"alleles": a2, "added": [], "score": 0.0, "cn": ["1", "1"]}, {"alleles": a3, "added": [], "score": rng.choice([0.0, 0.5]), "cn": ["1", "1", "1"]}]
+    else:
+        # two structures with the SAME pattern of copy counts (one copy of *1 plus one fusion) but different copy numbers per region
+        majors = [{"alleles": [(rng.choice(["1", "3"]), 1), ("4#" + rng.choice(["1", "3"]), 1)], "added": [], "score": 0.0, "cn": ["1", "4"]},
+                  {"alleles": [(rng.choice(["1", "2"]), 1), ("5", 1)], "added": [], "score": rng.choice([0.0, 0.5]), "cn": ["1", "5"]}]
     if rng.random() < 0.5:
         majors.reverse()
     table = {}
@@ -738,7 +743,7 @@ def gen_toy_two_structures(rng, k):
     for (pos, op) in sites:
         r = rng.random()
         if r < 0.35:
-            n = rng.choice([6, 7, 7, 7, 8])          # between the thresholds of two and of three copies
+            n = rng.choice([6, 7, 7, 7, 8, 11, 12])  # between the thresholds of two and of three copies (or of one and of two)
         elif r < 0.6:
             n = rng.choice([13, 20, 27])
         else:
